@@ -594,6 +594,7 @@ func (m *NodeManager) synchronizeBlocks(ctx context.Context, interrupt <-chan in
 	for _, hash := range hashes {
 		complete, abort := blockManager.AddRequest(ctx, hash, height, m.blockTxProcessor)
 		blockDone := false
+		aborted := false
 
 		for !blockDone {
 			select {
@@ -604,12 +605,13 @@ func (m *NodeManager) synchronizeBlocks(ctx context.Context, interrupt <-chan in
 				}
 
 				// The block is also orphaned when the most POW chain is now shorter than its height.
-				if err != nil || !heightHash.Equal(&hash) {
+				if (err != nil || !heightHash.Equal(&hash)) && !aborted {
 					logger.WarnWithFields(ctx, []logger.Field{
 						logger.Stringer("block_hash", hash),
 						logger.Int("block_height", height),
 					}, "Aborting orphaned block")
-					close(abort)
+					close(abort) // only once, the abort can take longer than the next check
+					aborted = true
 				}
 
 			case err := <-complete:
